@@ -154,6 +154,9 @@ class ScriptedSim(mosaik_api_v3.Simulator):
     def setup_done(self):
         self._rec(op="call", kind="setup_done", sid=self.sid)
         self._fault("setup_done")
+        if self.beh.get("setup_dur") and not self.remote:
+            import asyncio
+            yield asyncio.sleep(self.beh["setup_dur"])     # a setup_done that takes (virtual) time
         yield from self._latency("setup_done")
         self._fault_late("setup_done")
         self._rec(op="ret", kind="setup_done", sid=self.sid)
